@@ -197,6 +197,13 @@ def shapes(tier, seed):
     for w in (w2 if tier == "thorough" else rnd.sample(w2, 4)):
         nm = "".join(f"{p}{q}" for q, p in w)
         out.append(Shape(f"pauliword/{nm}/ctl=[2,3]", h_pauliword, dict(word=w, nq=nq, control=[2, 3]), modules=MODS))
+    # control qubit BELOW the system register (index 0), as int and as one-element list
+    for w in [((1, "X"), (2, "Y")), ((3, "Z"),), ((1, "Y"), (3, "X")), ((2, "Z"), (1, "X"))]:
+        nm = "".join(f"{p}{q}" for q, p in w)
+        for control in (0, [0]):
+            out.append(Shape(f"pauliword/{nm}/ctl={control}", h_pauliword, dict(word=w, nq=nq, control=control), modules=MODS))
+    out.append(Shape("qubitop/X1X2+Z1/ctl=0/id", h_qubit_op, dict(words=[((1, "X"), (2, "X")), ((1, "Z"),)], nq=3, order=2, steps=1, control=0,
+                                                                 time_mode="scalar", use_trotterize=True, ident=True), modules=MODS))
     out.append(Shape("canary/pauliword/sign", h_pauliword, dict(word=((0, "X"), (1, "Y")), nq=3, control=2, canary=True),
                      modules=MODS, canary=True))
     # (b)
